@@ -20,3 +20,12 @@ type WALEntryObserver interface {
 	// This method is called after the fsync operation has completed successfully.
 	OnWALSync(upToSeq uint64)
 }
+
+// WALRotationObserver is an optional extension of WALEntryObserver for
+// observers that keep a reference to the WAL they observe (to read entries
+// back or to ask for the next sequence number). When the log is rotated the
+// observers of the old WAL are carried over to the new one and those
+// implementing this interface are told which WAL object is the live one now.
+type WALRotationObserver interface {
+	OnWALRotated(newWAL *WAL)
+}
